@@ -1,4 +1,5 @@
 import Toq.Driver.QJson
+import Toq.Driver.C13Fos
 import Toq.Model.Metrics
 /-! Driver front end for C13 (state distance measures: certificate checkers and exact evaluators).
 
@@ -17,6 +18,7 @@ Matrices: `{"e":k,"re":[…],"im":[…]}` (entries `(re + i·im)/2^k`) or `{"den
 * `c13_classical {"n","p","q","slo","shi"}` → `{"prob","td","hs","trprod","trprod4","subfidrad","flo","fhi"}` (commuting pairs)
 * `c13_round     {"lo","hi","d"}`     → `{"r","bures2","rlo","rhi"}` (`np.round(·, d)` on an enclosure)
 * `c13_guard     {"family","same","a","b"}` → `{"outcome","densA","densB"}` (argument guards)
+* `c13_fos_args`, `c13_fos_exprs`, `c13_fos_product`, `c13_fos_guard`: the program and the guards of `fidelity_of_separability` (`Driver/C13Fos.lean`)
 
 Checker answers: `{"ok":[num,den]}` (the exact value returned by the verified checker of `Toq.Model.Metrics`) or
 `{"reject":"<first failed condition>"}`; the diagnostic only words a rejection by re-evaluating the same named
@@ -222,5 +224,6 @@ def handlers : List (String × Handler) :=
    ("c13_fid_primal_cong", hFidPrimalCong), ("c13_fid_dual", hFidDual), ("c13_mats_primal", hMatsPrimal),
    ("c13_mats_dual", hMatsDual), ("c13_exact", hExact), ("c13_hs_inner", hHsInner),
    ("c13_classical", hClassical), ("c13_round", hRound), ("c13_guard", hGuard)]
+  ++ Toq.Driver.C13Fos.handlers   -- the program of fidelity_of_separability (`Driver/C13Fos.lean`)
 
 end Toq.Driver.C13
